@@ -161,10 +161,21 @@ def lake_build(targets):
     return rc == 0, out
 
 
+# modules outside Props/ whose theorems are obligations of a property: the agreement of the hand-written model with the
+# definitions regenerated from the Rust source by tools/rust2lean.py (bitboard shifts, ray fills, knights/pawns, eval helpers,
+# line_between)
+EXTRA_MODULES = {p: ["Rawr.Proofs.RustFnsAgree"] for p in ("C01", "C08", "C10", "C17")}
+
+
+def run_rust2lean():
+    rc, out = sh([sys.executable, os.path.join(VERIF, "tools", "rust2lean.py")])
+    return rc == 0, out.strip()
+
+
 def props_modules(prop):
     """Lean modules holding the property theorems of `prop` (Props/Cxx.lean and Props/Cxx_*.lean)."""
     d = os.path.join(LEAN, "Rawr", "Props")
-    mods = []
+    mods = list(EXTRA_MODULES.get(prop, []))
     if os.path.isdir(d):
         for f in sorted(os.listdir(d)):
             if f.endswith(".lean") and re.match(r"^" + prop + r"([A-Za-z_][A-Za-z0-9_]*)?\.lean$", f):
